@@ -1,6 +1,7 @@
 package mv
 
 import (
+	"bytes"
 	"crypto/sha256"
 	"encoding/hex"
 	"encoding/json"
@@ -22,6 +23,61 @@ type KV struct {
 	V      []byte `json:"v,omitempty"`
 	Alloc  bool   `json:"alloc,omitempty"`  // build through Alloc/AllocSet/...
 	Reject bool   `json:"reject,omitempty"` // oversize: the library must reject it
+}
+
+// kvJSON is the serialised form: byte strings longer than 64 KiB that are a
+// repetition of one byte are stored as {fill, len}.
+type kvJSON struct {
+	Op     string `json:"op"`
+	K      []byte `json:"k,omitempty"`
+	V      []byte `json:"v,omitempty"`
+	KFill  *int   `json:"kfill,omitempty"`
+	KLen   int    `json:"klen,omitempty"`
+	VFill  *int   `json:"vfill,omitempty"`
+	VLen   int    `json:"vlen,omitempty"`
+	Alloc  bool   `json:"alloc,omitempty"`
+	Reject bool   `json:"reject,omitempty"`
+}
+
+func uniform(b []byte) (int, bool) {
+	if len(b) < 1<<16 {
+		return 0, false
+	}
+	for _, x := range b {
+		if x != b[0] {
+			return 0, false
+		}
+	}
+	return int(b[0]), true
+}
+
+func (kv KV) MarshalJSON() ([]byte, error) {
+	j := kvJSON{Op: kv.Op, K: kv.K, V: kv.V, Alloc: kv.Alloc, Reject: kv.Reject}
+	if f, ok := uniform(kv.K); ok {
+		j.K, j.KFill, j.KLen = nil, &f, len(kv.K)
+	}
+	if f, ok := uniform(kv.V); ok {
+		j.V, j.VFill, j.VLen = nil, &f, len(kv.V)
+	}
+	return json.Marshal(&j)
+}
+
+func (kv *KV) UnmarshalJSON(b []byte) error {
+	var j kvJSON
+	if err := json.Unmarshal(b, &j); err != nil {
+		return err
+	}
+	*kv = KV{Op: j.Op, K: j.K, V: j.V, Alloc: j.Alloc, Reject: j.Reject}
+	if j.KFill != nil {
+		kv.K = bytes.Repeat([]byte{byte(*j.KFill)}, j.KLen)
+	}
+	if j.VFill != nil {
+		kv.V = bytes.Repeat([]byte{byte(*j.VFill)}, j.VLen)
+	}
+	if kv.K == nil {
+		kv.K = []byte{}
+	}
+	return nil
 }
 
 // Batch is a plain-data batch: unique keys per level, each child name
